@@ -45,18 +45,25 @@ theorem relChars_noP (l : List Nat) : 'p' ∉ _root_.Poetry.relChars l := by
   have hp := plain_relChars l 'p' h
   revert hp; decide
 
-theorem leafText_toList (n ops v : String) :
+/-- a release text holds no double quote (so `_quoted` writes it between double quotes) -/
+theorem relText_nodq (l : List Nat) : ∀ c ∈ (Version.relText l).toList, c ≠ '"' := by
+  intro c hc h
+  rw [_root_.Poetry.relText_toList] at hc
+  have hp := plain_relChars l c hc
+  subst h
+  revert hp; decide
+
+theorem leafText_toList (n ops v : String) (hv : ∀ c ∈ v.toList, c ≠ '"') :
     (leafText n ops v false).toList = n.toList ++ ' ' :: (ops.toList ++ ' ' :: '"' :: (v.toList ++ ['"'])) := by
   have hq1 : ("\"" : String).toList = ['"'] := by decide
-  have hq2 : (" \"" : String).toList = [' ', '"'] := by decide
   have hsp : (" " : String).toList = [' '] := by decide
-  simp [leafText, String.toList_append, hq1, hq2, hsp]
+  simp [leafText, String.toList_append, hq1, hsp, quoteOf_dq hv]
 
-theorem leafText_dots (n ops v : String) :
+theorem leafText_dots (n ops v : String) (hv : ∀ c ∈ v.toList, c ≠ '"') :
     countChar '.' (leafText n ops v false) = countChar '.' n + countChar '.' ops + countChar '.' v := by
   have e1 : ((' ' : Char) == '.') = false := by decide
   have e2 : (('"' : Char) == '.') = false := by decide
-  simp [countChar, leafText_toList, List.filter_append, List.filter_cons, e1, e2]
+  simp [countChar, leafText_toList n ops v hv, List.filter_append, List.filter_cons, e1, e2]
   omega
 
 theorem D_zero : D 0 = ['0'] := by decide
@@ -110,7 +117,7 @@ theorem pfvText_endsDotZero (ops : String) (a b c : Nat) :
       (c == 0) := by
   have hl : (dropRight (leafText "python_full_version" ops (Version.relText [a, b, c]) false) 1).toList =
       ("python_full_version".toList ++ ' ' :: (ops.toList ++ ' ' :: '"' :: (D a ++ '.' :: D b))) ++ '.' :: D c := by
-    rw [dropRight_toList, leafText_toList, _root_.Poetry.relText_toList, relChars3_split]
+    rw [dropRight_toList, leafText_toList _ _ _ (relText_nodq _), _root_.Poetry.relText_toList, relChars3_split]
     have := take_keep ("python_full_version".toList ++ ' ' :: (ops.toList ++ ' ' :: '"' :: ((D a ++ '.' :: D b) ++ '.' :: D c)))
       ['"'] 1 (by simp)
     simp only [List.take_zero, List.length_singleton, Nat.sub_self, List.append_nil] at this
@@ -130,7 +137,7 @@ theorem pyRewrite_pfv3 {sop : Spec.SOp} {ops : String} (h : (sop, ops) ∈ pvOps
     have h1 := countChar_relText a [b, c]
     have h2 : countChar '.' "python_full_version" = 0 := by decide
     simp only [List.length_cons, List.length_nil] at h1
-    rw [leafText_dots, h1, h2, hdots]
+    rw [leafText_dots _ _ _ (relText_nodq _), h1, h2, hdots]
   unfold pyRewrite
   simp only [hprec, Nat.lt_irrefl, if_false, beq_self_eq_true, Bool.true_and, pfvText_endsDotZero]
   by_cases hc : ((ops == "<" || ops == ">=") && c == 0) = true
@@ -142,7 +149,7 @@ theorem pyRewrite_pfv3 {sop : Spec.SOp} {ops : String} (h : (sop, ops) ∈ pvOps
     rw [← String.toList_inj]
     simp only [String.toList_append, dropRight_toList, strReplace, String.toList_ofList, pfvL_eq, pvL_eq,
       String.length_toList]
-    rw [leafText_toList, leafText_toList, pfvL_eq, pvL_eq, _root_.Poetry.relText_toList,
+    rw [leafText_toList _ _ _ (relText_nodq _), leafText_toList _ _ _ (relText_nodq _), pfvL_eq, pvL_eq, _root_.Poetry.relText_toList,
       _root_.Poetry.relText_toList, relChars3_zero]
     generalize hR0 : ops.toList ++ ' ' :: '"' :: _root_.Poetry.relChars [a, b] = R0
     have hRnp : 'p' ∉ R0 ++ ['.', '0', '"'] := by
@@ -162,7 +169,7 @@ theorem pyRewrite_pfv3 {sop : Spec.SOp} {ops : String} (h : (sop, ops) ∈ pvOps
       simp [pfvL] <;> omega
     have hL : (leafText "python_full_version" ops (Version.relText [a, b, 0]) false).length =
         (pfvL ++ ' ' :: (R0 ++ ['.', '0', '"'])).length := by
-      rw [← String.length_toList, leafText_toList, pfvL_eq, _root_.Poetry.relText_toList, relChars3_zero, e1]
+      rw [← String.length_toList, leafText_toList _ _ _ (relText_nodq _), pfvL_eq, _root_.Poetry.relText_toList, relChars3_zero, e1]
     rw [hL, hlen, replace_pfv_head, replaceAux_noP _ _ hRnp]
     have := take_keep (pvL ++ ' ' :: R0) ['.', '0', '"'] 3 (by simp)
     simp only [List.length_cons, List.length_nil, Nat.sub_self, List.take_zero, List.append_nil] at this
